@@ -1520,6 +1520,38 @@ def oracle_int_eq(site, vals):
     return None if res is None else ("const", "true" if res else "false")
 
 
+def oracle_value_eq(site, vals):
+    """Scenario-independent oracle: `==` / `!=` of two fully known abstract values of the same shape (field-less enum
+    variants, tagged constants): structural equality."""
+    if len(vals) != 2:
+        return None
+    vs = []
+    for v in vals:
+        hops = 0
+        while v is not None and v[0] == "refval" and hops < 4:
+            v = v[1]
+            hops += 1
+        vs.append(v)
+    a, b = vs
+
+    def known(v):
+        if v is None:
+            return False
+        if v[0] == "const":
+            return v[1] is not None
+        if v[0] == "variant":
+            return all(known(x) for _, x in v[2])
+        return False
+    if not (known(a) and known(b)) or a[0] != b[0]:
+        return None
+    op = norm(site.name).split("::")[-1]
+    if op not in ("eq", "ne"):
+        return None
+    eq = (a == b)
+    return ("const", "true" if (eq if op == "eq" else not eq) else "false")
+
+
+VALUE_EQ = (r"PartialEq.*::(eq|ne)$", oracle_value_eq)
 INT_CMP = (r"Partial(Eq|Ord).*::(eq|ne|lt|le|gt|ge)$", oracle_int_eq)
 STR_EQ = (r"PartialEq.*::(eq|ne)$|str::traits::.*::(eq|ne)$", oracle_str_eq)
 
@@ -1670,6 +1702,7 @@ class AbsPaths:
             if any(rx.search(c) for c in (site.nres, site.ndecl, site.res, site.decl) if c):
                 if rfn(self, st, t, site):
                     return
+        matched_oracle = False
         for rx, ofn in self.oracles:
             if any(rx.search(c) for c in (site.nres, site.ndecl, site.res, site.decl) if c):
                 vals = []
@@ -1679,12 +1712,18 @@ class AbsPaths:
                         av = st.get(av[1]) if av[0] != "refval" else av[1]
                     vals.append(av)
                 res = ofn(site, vals)
+                if res is None:
+                    matched_oracle = True
+                    continue   # this oracle has no answer for these values: try the next one
                 d = t["dest"]
-                if d["p"] or res is None:
+                if d["p"]:
                     st.pop(d["l"], None)
                 else:
                     st[d["l"]] = res
                 return
+        if matched_oracle:
+            st.pop(t["dest"]["l"], None)
+            return
         # a crate-local callee that was not spliced (trait impls, atoms): evaluate it abstractly on the argument values; a
         # unique answer is used, anything else is unknown
         if t.get("resl") and t.get("res") in self.fn.facts.fns and getattr(self, "depth", 0) < 3 and not is_noise(t):
